@@ -445,6 +445,11 @@ static void op_mu_wait (op_t *o) {
 	case 4: f = &cond_le; arg = &cargs_shared[v][k & 7]; break;
 	default: f = NULL; arg = NULL; break;     /* NULL condition: always true */
 	}
+	if ((o->a[7] & 4) && !reader) {
+		/* the critical section changes another variable and then ends by blocking in the wait: waiters on that
+		   variable must be served just as after nsync_mu_unlock */
+		var_add (S.nvar > 1 ? (v + 1) % S.nvar : v, 1, 0);
+	}
 	h_releasing (mi, !reader);
 	if (dl_ns < 0 && note == NULL && (k & 1)) {
 		nsim_op_begin ("nsync_mu_wait");
